@@ -2,7 +2,7 @@
   C03, part 3: folding the lexical image gives the value back — `fold (toLex v) = Ok v`.
 -/
 import Proofs.C03.Text
-import Props.C10
+import Props.C10a
 set_option autoImplicit false
 
 namespace Narsese
